@@ -1,4 +1,4 @@
-\* C02: two pollers (+ workers), two ids, i1 queued twice, retry-then-ok bodies
+\* C03 fault-free: two pollers+workers, retry path
 SPECIFICATION Spec
 CONSTANTS
   Inv = {"i1", "i2"}
@@ -8,9 +8,9 @@ CONSTANTS
   Mode = "disabled"
   RerouteOnCC = TRUE
   MaxRetries = 1
-  Outcome <- AllOk
-  Submissions <- SubDupQ
-  PollN = 2
+  Outcome <- RetryOk
+  Submissions <- SubMix
+  PollN = 1
   Pollers = {"r1", "r2"}
   Recoverers = {}
   Stoppable = {}
@@ -19,10 +19,10 @@ CONSTANTS
   RecoveryAbortsOnLostRace = FALSE
 CONSTRAINT Bounded
 INVARIANT TypeOK
-INVARIANT NoParallelBody
+INVARIANT NoStranded
 INVARIANT SuccessHasResult
+INVARIANT FailedHasException
 INVARIANT ChangeLogIsPath
+INVARIANT StoppedLeavesNothing
 PROPERTY CoreFollowsEdge
 PROPERTY CoreFinalAbsorbing
-PROPERTY ClaimsAlternate
-PROPERTY OnlyOwnerMoves
